@@ -23,6 +23,9 @@ KINDS = {
     'PL0': ('Polynomial', (1,), 'float'), 'PL1': ('Polynomial', (2,), 'float'), 'PL2': ('Polynomial', (3,), 'float'),
     'PL3': ('Polynomial', (4,), 'float'),
 }
+# further spellings of a plain number
+KINDS.update({'Nb': ('number', (), 'int'), 'Nf64': ('number', (), 'float'), 'Ni64': ('number', (), 'int')})
+NUMFLAV = {'Nb': bool, 'Nf64': np.float64, 'Ni64': np.int64}
 CLS = dict(CLASSES)
 CLS['Polynomial'] = polymath.Polynomial
 
@@ -36,7 +39,8 @@ def values_of(o):
     cls, item, dt = KINDS[o['k']]
     a = np.array(o['v8'], dtype='int64').reshape(tuple(o['shape']) + item)
     if dt == 'float':
-        return a / 8.0
+        # 'scale' = k: every value is multiplied by the exact power of two 2**-k (tiny but perfectly conditioned data)
+        return a / 8.0 * 2.0 ** (-o.get('scale', 0))
     if dt == 'int':
         return a // 8
     return a != 0
@@ -47,6 +51,8 @@ def build(o, share=None):
     cls, item, dt = KINDS[o['k']]
     vals = values_of(o)
     if cls == 'number':
+        if o['k'] in NUMFLAV:                 # Python bool, NumPy scalars: all are numbers.Real
+            return NUMFLAV[o['k']](vals)
         return float(vals) if dt == 'float' else int(vals)
     if cls == 'ndarray':
         return np.array(vals, dtype='float64')
@@ -191,6 +197,11 @@ op('matmul', n=2, call=lambda a, b: a * b, fail=None, ref=lambda x, y: np.einsum
 op('rotscalar', n=2, call=lambda a, b: a * b, fail=None, ref=None)
 op('inverse', n=1, call=lambda a, nozeros=False: a.inverse(nozeros=nozeros), fail=lambda v: (0, singular(v[0])),
    ref=None, fast='nozeros')
+# every spelling of the matrix inverse
+op('mrecip', n=1, call=lambda a: a.reciprocal(), fail=lambda v: (0, singular(v[0])), ref=None)
+op('rdivm', n=1, call=lambda a: 1. / a, fail=lambda v: (0, singular(v[0])), ref=None)
+op('mpowm1', n=1, call=lambda a: a ** -1, fail=lambda v: (0, singular(v[0])), ref=None)
+op('mmdiv', n=2, call=lambda a, b: a / b, fail=lambda v: (1, singular(v[1])), ref=None)
 op('matpow', n=2, call=lambda a, b: a ** b, fail=None, ref=None)
 op('qmul', n=2, call=lambda a, b: a * b, fail=None, ref=None)
 op('qrecip', n=1, call=lambda a: a.reciprocal(), fail=lambda v: (0, np.all(v[0] == 0, axis=-1)),
